@@ -2,7 +2,8 @@ import Asn1cModel.Base
 import Asn1cModel.Impl.Integer
 /-
   Impl model of skeletons/OBJECT_IDENTIFIER.c and RELATIVE-OID.c arc helpers.
-  `asn_oid_arc_t` is `uint32_t`; each definition mirrors one C function *as it is*.
+  `asn_oid_arc_t` is `uint32_t`; each definition mirrors one C function *as it is*
+  (`get_single_arc` with the overflow test of the F6 repair).
   Core Lean only.
 -/
 namespace Asn1c.Impl.Oid
@@ -19,19 +20,21 @@ inductive ArcRes where
   | ok (v : Nat) (rd : Nat)
   /-- return -1, errno = EINVAL (ran out of octets inside a sub-identifier) -/
   | einval
-  /-- return -1, errno = ERANGE (the code's overflow branch; see `getSingleArc_never_erange`) -/
+  /-- return -1, errno = ERANGE (the sub-identifier does not fit `asn_oid_arc_t`) -/
   | erange
 deriving DecidableEq, Repr
 
-/-- the `for(accum = 0; b < arcend; b++)` loop.  `accum` is a `uint32_t`:
-    `accum = (accum << 7) | (*b & ~0x80)` drops the bits shifted out at the top (finding F6);
-    the low seven bits of the shifted value are zero, so `|` is `+`. -/
+/-- the `for(accum = 0; b < arcend; b++)` loop.  `accum` is a `uint32_t`.  Before seven more bits are
+    shifted in, `if(accum > (ASN_OID_ARC_MAX >> 7))` reports the overflow (ERANGE); past that test
+    `accum << 7` keeps all its bits (the `% 2^32` of the 32-bit shift is the identity, see
+    `Proofs.Oid.getSingleLoop_subid`).  The low seven bits of the shifted value are zero, so `|` is `+`. -/
 def getSingleLoop (accum : Nat) (pos : Nat) : Bytes → ArcRes
   | [] => .einval
   | b :: bs =>
+    if accum > arcMax / 128 then .erange
+    else
     let accum' := accum * 128 % 4294967296 + b % 128
-    if b / 128 % 2 = 0 then
-      if accum' ≤ arcMax then .ok accum' (pos + 1) else .erange
+    if b / 128 % 2 = 0 then .ok accum' (pos + 1)
     else getSingleLoop accum' (pos + 1) bs
 
 /-- `OBJECT_IDENTIFIER_get_single_arc(arcbuf, arcbuf_len, &value)` -/
